@@ -139,7 +139,7 @@ func checkC13GoTyped(c c13GoCase) error {
 	}
 	// (b) accepted in the encoding direction => accepted in the decoding direction
 	if _, derr := decodeAny(kind, out); derr != nil {
-		if hasTagOrWideInt(out) {
+		if inU := c.Ctx == "unprotected" || (c.Ctx != "protected" && c.Bucket == "U"); hasWideInt(out) || (inU && hasTagOrWideInt(out)) {
 			// outside the supported data model (DESIGN.md 2.4: integer values beyond int64, tags in
 			// values of an envelope): the decoders' refusal is the documented limit; excluded, counted
 			stats.Excluded("go-typed value outside the data model (tag / integer beyond int64 in the emitted value)")
@@ -166,6 +166,20 @@ func hasTagOrWideInt(b []byte) bool {
 			return true
 		}
 		if x.Major <= 1 && x.Arg > 1<<63-1 {
+			return true
+		}
+	}
+	return false
+}
+
+// hasWideInt: an integer outside int64 somewhere in the item.
+func hasWideInt(b []byte) bool {
+	root, err := rc.MParse(b, true)
+	if err != nil {
+		return false
+	}
+	for _, s := range rc.MSlots(&root) {
+		if x := s.Get(); x != nil && x.Verb == nil && x.Major <= 1 && x.Arg > 1<<63-1 {
 			return true
 		}
 	}
